@@ -180,6 +180,13 @@ def cases(draw, switches):
             key = v["name"] + ("$()" if v["kind"] == "sarr" else "$")
             cfg[key] = draw(st.sampled_from([1, 8, 31, 33, 64, 200, 32766]))
     opts = {"default_str_storage": storage, "initialize_vars": draw(st.booleans()), "string_configs": cfg}
+    # surroundings that should not matter for declarations
+    if draw(st.integers(0, 3)) == 0:
+        opts["add_standard_prefix"] = False
+    if draw(st.integers(0, 3)) == 0:
+        opts["filter_unused_linenum"] = True
+    if draw(st.integers(0, 5)) == 0:
+        opts["add_suffix"] = False
     return {"source": "\n".join(lines), "vars": vars_, "options": opts}
 
 
